@@ -184,3 +184,77 @@ func VP_C13_save_container_biome() {
 	}
 	vp.Cover("end")
 }
+
+// vpMiniRegistry: under the engine the 26k-state registry (built by the block
+// package's init from an embedded gzip file) does not exist; a four-state
+// registry whose ids and names coincide with the real ones (0..3: air, stone,
+// granite, polished granite - all without properties) stands in for it, so the
+// native replay against the real registry behaves identically.
+func vpMiniRegistry() {
+	list := []block.Block{block.Air{}, block.Stone{}, block.Granite{}, block.PolishedGranite{}}
+	if !vp.Symbolic() {
+		for i, b := range list {
+			vp.Assume(block.StateList[i] == b && block.ToStateID[b] == block.StateID(i))
+		}
+		return
+	}
+	block.StateList = list
+	block.ToStateID = map[block.Block]block.StateID{}
+	block.FromID = map[string]block.Block{}
+	for i, b := range list {
+		block.ToStateID[b] = block.StateID(i)
+		block.FromID[b.ID()] = b
+	}
+}
+
+// level -> save -> level with sections: block states, biomes, light arrays
+// (present, present-but-dark, absent), counts, status and the six height maps
+// are preserved; two sections, positions and values arbitrary.
+func VP_C13_save_roundtrip() {
+	vpMiniRegistry()
+	c := EmptyChunk(1 + vp.Tier())
+	sec := &c.Sections[vp.Choice(1+vp.Tier())]
+	nset := vp.Choice(3)
+	pos := []int{0, 17, 4095}
+	for k := 0; k < nset; k++ {
+		v := vp.Int()
+		vp.Assume(v >= 0 && v < 4)
+		sec.SetBlock(pos[k], BlocksState(v))
+	}
+	if vp.Choice(2) == 1 {
+		sec.Biomes.Set(63, []BiomesState{1, 7, 40, 62}[vp.Choice(4)]) // names have different lengths: one path each
+	}
+	// light: absent, present and dark, present with arbitrary content
+	switch vp.Choice(3) {
+	case 1:
+		sec.SkyLight = make([]byte, 2048)
+		sec.BlockLight = make([]byte, 2048)
+	case 2:
+		sec.SkyLight = make([]byte, 2048)
+		sec.SkyLight[0], sec.SkyLight[2047] = vp.Byte(), vp.Byte()
+		sec.BlockLight = make([]byte, 2048)
+		sec.BlockLight[1000] = vp.Byte()
+	}
+	hv := vp.Int()
+	vp.Assume(hv >= 0 && hv <= 16)
+	c.HeightMaps.OceanFloor.Set(255, hv)
+	c.Status = StatusFull
+	var s save.Chunk
+	vp.Assert(ChunkToSave(c, &s) == nil, "ChunkToSave err==nil")
+	c2, err := ChunkFromSave(&s)
+	vp.Assert(err == nil, "ChunkFromSave err==nil")
+	vp.Assert(len(c2.Sections) == len(c.Sections), "section count preserved")
+	for i := range c.Sections {
+		a, b := &c.Sections[i], &c2.Sections[i]
+		for _, p := range pos {
+			vp.Assert(a.GetBlock(p) == b.GetBlock(p), "save round trip: block states")
+		}
+		vp.Assert(a.BlockCount == b.BlockCount, "save round trip: block count")
+		vp.Assert(a.Biomes.Get(0) == b.Biomes.Get(0) && a.Biomes.Get(63) == b.Biomes.Get(63) && a.Biomes.Get(5) == b.Biomes.Get(5), "save round trip: biomes")
+		vp.Assert((a.SkyLight == nil) == (b.SkyLight == nil) && (a.BlockLight == nil) == (b.BlockLight == nil), "save round trip: light arrays present or absent as before")
+		vp.Assert(string(a.SkyLight) == string(b.SkyLight) && string(a.BlockLight) == string(b.BlockLight), "save round trip: light arrays")
+	}
+	vp.Assert(c2.Status == c.Status, "save round trip: status")
+	vp.Assert(c2.HeightMaps.OceanFloor.Get(0) == c.HeightMaps.OceanFloor.Get(0) && c2.HeightMaps.OceanFloor.Get(255) == c.HeightMaps.OceanFloor.Get(255), "save round trip: height maps")
+	vp.Cover("end")
+}
